@@ -175,6 +175,7 @@ class Recorder:
         self.description = []
         self.resolve_cd = []
         self.raised = None
+        self.ambiguous = False
 
     def world(self) -> dict:
         return {
@@ -221,7 +222,13 @@ def recording(rec: Recorder, *, oracle_match: bool = True):
 
         def classify(self, ctx):
             r = self._h.classify(ctx)
-            rec.classify.append([list(ctx.tokens), ser_classification(r)])
+            sc = ser_classification(r)
+            # the model's oracle is a function of the tokens; a handler that also reads the cwd (python) may answer the
+            # same tokens differently after a `cd`: such a run cannot be replayed by the model
+            for t0, c0 in rec.classify:
+                if t0 == list(ctx.tokens) and c0 != sc:
+                    rec.ambiguous = True
+            rec.classify.append([list(ctx.tokens), sc])
             return r
 
         def __getattr__(self, name):
